@@ -50,7 +50,8 @@ Proof.
     change (pure_expr mutating l && pure_expr mutating r = true). rewrite (IHl A), (IHr B). reflexivity.
   - intros c H. reflexivity.
   - intros x _ H. simpl in H. change (pure_var mutating x = true). apply flat_var_pure. exact H.
-  - intros f l _ H. discriminate.
+  - intros f l IHl H. simpl in H. apply andb_prop in H. destruct H as [Hc Hl].
+    change (negb (control_builtin f) && pure_elist mutating l = true). rewrite Hc, (IHl Hl). reflexivity.
   - intros a IHa f l IHl H. simpl in H.
     destruct a as [c0|r|f0 l0|a0 f0 l0|a0 n0|a0 e0|a0]; try discriminate.
     apply andb_prop in H. destruct H as [H Hl]. apply andb_prop in H. destruct H as [Hr Hok].
@@ -107,8 +108,9 @@ Definition flat_example : list rule :=
   [{| rname := "Count"%string; rdesc := ""%string; rsal := 0;
       rwhen := EBin OAnd (EBin OAnd (EBin OLT (EAtom (AVar (fv "F" "I"))) (EAtom (AConst (CInt 3))))
                                     (EParen true (EBin OEq (EAtom (AVar (fv "F" "S"))) (EAtom (AConst (CStr "stop"))))))
-                         (EBin OLT (EAtom (AMethod (AVar (VName "F")) "Sum" (ECons (EAtom (AVar (fv "F" "I"))) (ECons (EAtom (AConst (CInt 1))) ENil))))
-                                   (EAtom (AConst (CInt 9))));
+                         (EBin OOr (EBin OLT (EAtom (AMethod (AVar (VName "F")) "Sum" (ECons (EAtom (AVar (fv "F" "I"))) (ECons (EAtom (AConst (CInt 1))) ENil))))
+                                             (EAtom (AConst (CInt 9))))
+                                   (EAtom (AFunc "IsNil" (ECons (EAtom (AVar (fv "G" "Cfg"))) ENil))));
       rthen := [SAssign (fv "F" "I") AsAdd (EAtom (AConst (CInt 1)));
                 SAssign (VSel (fv "F" "Arr") (EAtom (AConst (CInt 1)))) AsSet (EBin OAdd (EAtom (AVar (VSel (fv "F" "Arr") (EAtom (AConst (CInt 0)))))) (EAtom (AVar (fv "F" "I"))))] |};
    {| rname := "Mark"%string; rdesc := ""%string; rsal := 5;
